@@ -15,12 +15,22 @@ def new_interp(facts, abstract=ABSTRACT):
     sym.CTX = {}
     return I
 
+import os as _os, sys as _sys
+_sys.path.insert(0, _os.path.join(_os.path.dirname(_os.path.dirname(_os.path.abspath(__file__))), 'spec'))
+from params import PARAMS as _FROZEN_PARAMS
+
 def params_of(body):
-    """[(name, type)] of a function body"""
+    """[(name, type)] of a function body.  A parameter's name is not part of the function's interface, and the
+    specification tables name constructor and setter arguments: whenever the function still has the parameters (count
+    and types) it had when the tables were written, the names frozen then (spec/params.py) are handed out by position."""
     out = []
     for p in body.get('params', []):
-        nm = p['pat'].get('name') if 'pat' in p and p['pat']['k'] == 'Binding' else '_'
+        pat = p.get('pat') or {}
+        nm = pat.get('name') if pat.get('k') == 'Binding' else '_'
         out.append((nm, p['ty']))
+    fz = _FROZEN_PARAMS.get(body.get('def'))
+    if fz and len(fz) == len(out) and all(norm_ty(t) == ft for (_, t), (_, ft) in zip(out, fz)):
+        out = [(fn_ if fn_ != '_' else n, t) for (n, t), (fn_, _) in zip(out, fz)]
     return out
 
 def run_fn(I, d, args, tsub=None):
@@ -29,6 +39,25 @@ def run_fn(I, d, args, tsub=None):
         return I.call_local(d, args, tsub=tsub)
     finally:
         sym.CTX = {}
+
+def byte_view(I, v, ty=None):
+    """the bytes a value stands for: a byte sequence is itself; a struct with a crate-local `Deref<Target = [u8]>` (or
+    `AsRef<[u8]>`) impl is what that impl returns"""
+    from evalr import SliceV
+    while isinstance(v, RefV): v = v.place.get()
+    if isinstance(v, SeqV): return v
+    if isinstance(v, StructV):
+        for tr in ('core::ops::Deref', 'core::convert::AsRef'):
+            for nm in ('deref', 'as_ref'):
+                d = I.f.method(tr, v.ty, nm) or I.f.method(tr, v.path, nm)
+                if d and d in I.f.bodies:
+                    r = I.call_local(d, [RefV(Cell(v))], None)
+                    while isinstance(r, RefV): r = r.place.get()
+                    if isinstance(r, SeqV): return r
+                    if isinstance(r, SliceV):
+                        sg = I.slice_segs(r)
+                        if sg is not None: return SeqV('u8', list(sg))
+    return v
 
 def sym_args(I, body, prefix=''):
     return [I.sym_value(norm_ty(t), prefix + n) for n, t in params_of(body)]
